@@ -8,7 +8,7 @@ hash256 is an uninterpreted function on symbolic input (same symbol on the imple
 """
 import hashlib
 
-from symx import core, loader, shims
+from symx import core, fpx, loader, shims
 from symx.core import (SI, SBytes, Ratio, check, s_and, s_or, s_not, s_implies, norm, assume, wrapb, b_and, b_or, b_not, b_cmp)
 from vlib.run import Ob, sym_run, merge_runs
 
@@ -58,7 +58,8 @@ META = {
         "soundness obligation: a transaction id is not the hash256 of a 64-byte node pair computed while validating the proof (excludes the "
         "64-byte-transaction ambiguity, CVE-2017-12842, which is inherent to Bitcoin's tree)",
         "Bitcoin Core semantics of SetCompact/GetCompact/CalculateNextWorkRequired/CPartialMerkleTree as transcribed in checks/c17.py",
-        "SI * float is modelled exactly only for power-of-two floats and |int| < 2^53 (no rounding happens in CPython there)",
+        "floating-point arithmetic in the code under test (true division, int * float) follows the integer model of IEEE-754 doubles "
+        "in symx/fpx.py (round to nearest even, normal range; cross-checked against the interpreter by probes/fpx_selftest.py)",
     ],
 }
 
@@ -198,6 +199,42 @@ def spec_next_bits(mag, td):
     if new > POW_LIMIT:
         new = POW_LIMIT
     return spec_get_compact(new)
+
+
+def spec_new_target(mag, td):
+    """the new target of CalculateNextWorkRequired as one term (no fork on the powLimit cap)"""
+    t = td
+    if t < TWO_WEEKS // 4:
+        t = TWO_WEEKS // 4
+    if t > TWO_WEEKS * 4:
+        t = TWO_WEEKS * 4
+    new = mag * t // TWO_WEEKS
+    if isinstance(new, int):
+        return min(new, POW_LIMIT)
+    return core.s_ite(new > POW_LIMIT, POW_LIMIT, new)
+
+
+def compact_pred(r, new):
+    """`r == GetCompact(new)` as a predicate (no path fork): r = 4 bytes whose size byte r[3] is concrete, new in [0, 2^256).
+    GetCompact: size = byte length of new, mantissa = the top three bytes; a mantissa with bit 23 set is shifted down one more
+    byte and the size goes up by one."""
+    size = r[3]
+    assert isinstance(size, int)
+    word = le_int(r[0:3])
+
+    def in_size(nb):
+        if nb == 0:
+            return new == 0
+        return s_and(new >= (1 << (8 * (nb - 1))), new < (1 << (8 * nb)))
+
+    def shifted(nb):
+        return new << (8 * (3 - nb)) if nb <= 3 else new >> (8 * (nb - 3))
+    cases = []
+    if 0 <= size <= 32:
+        cases.append(s_and(in_size(size), shifted(size) < 0x800000, word == shifted(size)))
+    if 1 <= size <= 33:
+        cases.append(s_and(in_size(size - 1), shifted(size - 1) >= 0x800000, word == (shifted(size - 1) >> 8)))
+    return s_or(*cases)
 
 
 def s_iff(a, b):
@@ -553,6 +590,22 @@ def _header_path():
     b3 = blk.Block.parse_header(shims.BytesIOShim(s2))
     check(s_and(b3.version == ver, b3.prev_block == prev, b3.merkle_root == mr, b3.timestamp == ts, b3.bits == bits, b3.nonce == nonce),
           "parse_header(serialize(fields)) != fields", witness=lambda env: {"hdr": core.conc_value(e2, env).hex()})
+    # history on one object: hash()/id() were asked for, then header fields change (nonce grinding, a new timestamp, another
+    # merkle root); the hash must be that of the header the object serialises now
+    b2.hash(), b2.id(), b3.hash()
+    nonce2, mr2, ts2 = SBytes.sym("nonce2", 4), SBytes.sym("mr2", 32), SI.var("ts2", 0, (1 << 32) - 1)
+    wit2 = lambda env: {"hdr": core.conc_value(e2, env).hex(), "edit": {"nonce": core.conc_value(nonce2, env).hex(),  # noqa
+                                                                        "merkle_root": core.conc_value(mr2, env).hex(), "timestamp": env["ts2"]}}
+    for obj in (b2, b3):
+        obj.nonce, obj.merkle_root, obj.timestamp = nonce2, mr2, ts2
+    e4 = ver.to_bytes(4, "little") + prev[::-1] + mr2[::-1] + ts2.to_bytes(4, "little") + bits + nonce2
+    for obj, how in ((b2, "constructed"), (b3, "parsed")):
+        s4 = obj.serialize()
+        check((len(s4) == 80) and (s4 == e4), f"Block.serialize after editing fields of a {how} header", witness=wit2)
+        h4 = obj.hash()
+        check(h4 == pin("hh4", spec_hash256(e4)[::-1]), f"Block.hash of a {how} header whose fields changed after an earlier hash() is not the hash of its current 80 bytes",
+              witness=wit2)
+        check(obj.id() == h4.hex(), "Block.id after editing fields", witness=wit2)
     return "ok"
 
 
@@ -567,6 +620,20 @@ def replay_header(w):
     from io import BytesIO
     raw = bytes.fromhex(w["hdr"])
     b = block.Block.parse_header(BytesIO(raw))
+    if "edit" in w:
+        ed = w["edit"]
+        b2 = block.Block(b.version, b.prev_block, b.merkle_root, b.timestamp, b.bits, b.nonce)
+        out = []
+        for obj, how in ((b, "parsed"), (b2, "constructed")):
+            first = obj.hash(), obj.id()
+            obj.nonce, obj.merkle_root, obj.timestamp = bytes.fromhex(ed["nonce"]), bytes.fromhex(ed["merkle_root"]), ed["timestamp"]
+            now = obj.serialize()
+            hh = spec_hash256(now)[::-1]
+            if obj.hash() != hh or obj.id() != hh.hex():
+                return {"violated": True, "observed": f"{how} header: hash() was {first[0].hex()}; after setting nonce/merkle_root/timestamp the object serialises "
+                                                      f"{now.hex()} but hash() = {obj.hash().hex()}, id() = {obj.id()}; hash256 of the current header is {hh.hex()}"}
+            out.append(how)
+        return {"violated": False, "observed": f"hash follows the edited fields ({out})"}
     fields = (b.version == le_int(raw[0:4]) and b.prev_block == raw[4:36][::-1] and b.merkle_root == raw[36:68][::-1]
               and b.timestamp == le_int(raw[68:72]) and b.bits == raw[72:76] and b.nonce == raw[76:80])
     hh = spec_hash256(raw)[::-1]
@@ -665,7 +732,7 @@ def replay_tbits(w):
 REGIONS = {"quarter clamp": (-(1 << 32), TWO_WEEKS // 4 - 1), "unclamped": (TWO_WEEKS // 4, TWO_WEEKS * 4), "x4 clamp": (TWO_WEEKS * 4 + 1, 1 << 32)}
 
 
-def _retarget_path(e, region):
+def _retarget_path(e, region, pred=False):
     h = H()
     b0, b1, b2 = SI.var("b0", 0, 255), SI.var("b1", 0, 255), SI.var("b2", 0, 127)  # sign bit clear by construction
     td = SI.var("td", *REGIONS[region])
@@ -675,16 +742,42 @@ def _retarget_path(e, region):
     assume(mag <= NO_WRAP)
     try:
         r = h.calculate_new_bits(bits, td)
+    except core.Unsupported:
+        raise       # the engine's "cannot encode" signal is not an outcome of the code under test
     except Exception as ex:
         check(False, f"calculate_new_bits raised {type(ex).__name__}", witness=wit)
         return "raised:" + type(ex).__name__
+    if pred:
+        # bit-vector re-exploration (see _retarget_region): the specification as a predicate on the result, so that the only
+        # forks are those of the implementation and every path ends in one query
+        ok = len(r) == 4 and compact_pred(SBytes(list(r[0:3]) + [core.concretize(r[3])]), spec_new_target(mag, td))
+        # decided on a fresh solver (full bit-blasting pipeline): the counterexamples are needles (the exact quotient must be
+        # an integer that the double product just misses), which the incremental core does not find within the time limit
+        check(ok, "calculate_new_bits differs from CalculateNextWorkRequired", witness=wit, timeout_ms=10000, fresh=True)
+        return f"size {r[3]}" if len(r) == 4 else f"{len(r)} bytes"
     want = spec_next_bits(mag, td)
     check((len(r) == 4) and (r == want), "calculate_new_bits differs from CalculateNextWorkRequired", witness=wit)
     return f"size {want[3]}"
 
 
+def _retarget_region(e, region):
+    """the consensus formula is pure integer arithmetic, decided in LIA mode (div by constants; implementation and specification
+    build the same product term).  If calculate_new_bits goes through floating point (`/` instead of `//`), the rounding model of
+    symx/fpx.py multiplies two symbolic significands, which LIA mode refuses (Unsupported -> inconclusive): the region is then
+    explored again over bit-vectors, where the solver finds the inputs whose double rounding departs from the integer formula."""
+    ev0 = fpx.STATS["eval"]
+    r = sym_run(lambda: _retarget_path(e, region), mode="int", timeout_ms=20000, max_violations=12)
+    if fpx.STATS["eval"] != ev0 and r["inconclusive"] and not r["violations"]:
+        r2 = sym_run(lambda: _retarget_path(e, region, pred=True), mode="bv", timeout_ms=10000, max_violations=3, wall_s=300)
+        if r2["violations"] or not r2["inconclusive"]:
+            return r2
+        r2["inconclusive"] = r["inconclusive"][:3] + r2["inconclusive"]
+        return r2
+    return r
+
+
 def ob_retarget(e):
-    runs = [sym_run(lambda: _retarget_path(e, region), mode="int", timeout_ms=20000, max_violations=12) for region in REGIONS]
+    runs = [_retarget_region(e, region) for region in REGIONS]
     r = merge_runs(runs)
     r["sample"] = {"previous bits": f"exponent {e}, 23 symbolic mantissa bits", "time differential": "symbolic in [-2^32, 2^32] (three regions)",
                    "outcomes": r["classes"]}
